@@ -17,6 +17,7 @@ func init() {
 	vrt.Register("C13_cache_key", CacheKey)
 	vrt.Register("C13_map_loop", MapLoop)
 	vrt.Register("C13_faulty_template_repeat", FaultyTemplateRepeat)
+	vrt.Register("C13_earlier_renders", EarlierRenders)
 }
 
 func itoa(n int) string { return strconv.Itoa(n) }
@@ -318,6 +319,70 @@ func FaultyTemplateRepeat() {
 			vrt.Assert(e1.Error() == e2.Error(), "the same error text")
 			vrt.Assert(e1.Error() == ferr.Error(), "equal to the error of a fresh parse")
 		}
+	}
+	vrt.Cover("done")
+}
+
+// ---- the output is a function of template and data, not of what the process
+// rendered before: the same template over values of look-alike types (two
+// struct types with the same printed name and the same field names at other
+// positions, a map and a struct with the same keys, a value and a pointer),
+// in every order of earlier renders
+func lookAlikeA(name string, n int) interface{} {
+	type Rec struct {
+		Name string
+		N    int
+	}
+	return Rec{Name: name, N: n}
+}
+
+func lookAlikeB(name string, n int) interface{} {
+	type Rec struct {
+		N    int
+		Pad  string
+		Name string
+	}
+	return Rec{N: n, Pad: "pad", Name: name}
+}
+
+func EarlierRenders() {
+	n1, n2 := vrt.Int(), vrt.Int()
+	s1, s2 := vrt.BytesIn(1, "abc"), vrt.BytesIn(1, "xyz")
+	type rec struct {
+		Name string
+		N    int
+	}
+	vals := []interface{}{
+		lookAlikeA(s1, n1),
+		lookAlikeB(s2, n2),
+		map[string]interface{}{"Name": s2, "N": n1},
+		&rec{Name: s1, N: n2},
+	}
+	wants := []string{s1 + "/" + itoa(n1), s2 + "/" + itoa(n2), "", s1 + "/" + itoa(n2)}
+	const in = "<%= p.Name %>/<%= p.N %>"
+	render := func(i int) (string, error) {
+		ctx := plush.NewContext()
+		ctx.Set("p", vals[i])
+		return plush.Render(in, ctx)
+	}
+	cached := vrt.Bool()
+	plush.CacheEnabled = cached
+	// an arbitrary history of up to two earlier renders, then the observed one
+	h := vrt.Choice(3)
+	for j := 0; j < h; j++ {
+		render(vrt.Choice(len(vals)))
+	}
+	obs := vrt.Choice(len(vals))
+	got, err := render(obs)
+	plush.CacheEnabled = false
+	vrt.Note("got", got)
+	if obs == 2 {
+		// field syntax on a map: whatever plush decides, it decides it the same way after any history
+		g2, e2 := render(obs)
+		vrt.Assert((err == nil) == (e2 == nil) && got == g2, "the same template and data give the same result again")
+	} else {
+		vrt.Assert(err == nil, "a struct renders after any history of earlier renders")
+		vrt.Assert(got == wants[obs], "the output depends on the template and the data only, not on what was rendered before")
 	}
 	vrt.Cover("done")
 }
